@@ -71,20 +71,20 @@ func chunkWrite(w io.Writer, data []byte, r *vlib.Rng, mode int) {
 
 func c07Case(seed int64, tier string, i int) (vlib.SshCase, string) {
 	corpus := c07Corpus(seed, tier)
-	c := corpus[i%len(corpus)]
+	c := corpus.At(i % corpus.Len())
 	pid := pidTokens[i%len(pidTokens)]
 	return c, pid
 }
 
-var c07CorpusCache []vlib.SshCase
+var c07CorpusCache *vlib.SshCorpusT
 
-func c07Corpus(seed int64, tier string) []vlib.SshCase {
+func c07Corpus(seed int64, tier string) *vlib.SshCorpusT {
 	if c07CorpusCache == nil {
 		n := 20000
 		if tier == "thorough" {
 			n = 500000
 		}
-		c07CorpusCache = vlib.SshCorpus(seed, "C07", n, vlib.SshForms)
+		c07CorpusCache = vlib.NewSshCorpus(seed, "C07", n, vlib.SshForms)
 	}
 	return c07CorpusCache
 }
